@@ -346,7 +346,7 @@ def gen_case(rng, tree, valid, app=None):
     cls = gen_cls(rng, valid)
     if app == "qrscp":
         form = rng.choices(["abs", "abs/", "rel", "./rel/", "empty"], [5, 2, 2, 1, 0.3])[0]
-        ts = rng.choices(["implicit", "explicit"], [3, 1])[0]
+        ts = rng.choices(["implicit", "explicit", "deflated"], [3, 1, 1])[0]
     else:
         form = rng.choices(["abs", "abs/", "rel", "./rel/", "none"], [5, 2, 2, 1, 1])[0]
         ts = rng.choices(["implicit", "explicit", "deflated"], [3, 1, 1])[0]
@@ -478,6 +478,9 @@ def fixed_cases(tree, valid):
         for cl in clss[1:]:
             out.append(dict(app=app, form="abs", uid=cps("../x"), cls=None if cl is None else cps(cl), ts="implicit", route="fake", gen="fixed-cls"))
         out.append(dict(app=app, form="rel", uid=cps("../decoy.txt"), cls=cps(clss[0]), ts="explicit", route="wire", gen="fixed"))
+    for u in ("../decoy.txt", "/abs", "./../x", "a/../../x"):
+        for route in ("fake", "wire"):
+            out.append(dict(app="qrscp", form="abs", uid=cps(u), cls=cps(clss[0]), ts="deflated", route=route, gen="fixed-deflated"))
     out.append(dict(app="storescp", form="abs", uid=cps("../decoy.txt"), cls=cps(clss[0]), ts="deflated", route="wire", gen="fixed"))
     out.append(dict(app="storescp", form="none", uid=cps("/abs"), cls=cps("/x/"), ts="deflated", route="fake", gen="fixed"))
     return out
